@@ -37,7 +37,7 @@ PROBES = ["kind.plain", "kind.route", "kind.exttimeout", "kind.ieee", "kind.mult
 VERSIONS = tuple(range(4, 15))
 BUSY = ("MAX_MESSAGE_LIMIT_REACHED", "NETWORK_BUSY", "NO_BUFFERS")
 REFUSE = ("NETWORK_DOWN", "INVALID_CALL")
-CONFIRMS = ("success", "failure", "never", "duplicate", "wrong_tag", "wrong_dest", "before_response", "wrong_then_right", "late_119", "late_121")
+CONFIRMS = ("success", "failure", "never", "duplicate", "wrong_tag", "wrong_dest", "before_response", "wrong_then_right", "late_119", "late_121", "early_in_backoff")
 KINDS = ("plain", "route", "exttimeout", "ieee", "multicast", "broadcast")
 ENQ_SCRIPTS = (("OK",), ("B", "OK"), ("B", "B", "OK"), ("B", "B", "B"), ("R",), ("B", "R"))
 SETUP = ("getExtendedTimeout", "lookupNodeIdByEui64", "setExtendedTimeout", "replaceAddressTableEntry", "setSourceRoute")
@@ -247,10 +247,15 @@ def run(scenario, params, tape, detail=False):
         code = r["enq"][k] if k < len(r["enq"]) else "OK"
         status = "OK" if code == "OK" else (BUSY[(r["i"] + k) % 3] if code == "B" else REFUSE[(r["i"] + k) % 2])
         r["attempts"].append((loop.time(), status))
+        if status != "OK" and code == "B" and k == 0 and r["conf"] == "early_in_backoff" and req.name == "sendUnicast":
+            # the stack reports on this very (destination, tag) while the host is backing off after a busy answer (a late duplicate of an
+            # earlier message's confirmation, an unsolicited one): it says nothing about whether THIS message will ever be accepted
+            probe("confirm.own_tag_during_backoff")
+            confirm(r, tag, aps, "OK", delay=0.2)
         if status == "OK" and req.name == "sendUnicast":
             c = r["conf"]
             r["accepted_tag"] = tag
-            if c == "success":
+            if c in ("success", "early_in_backoff"):
                 confirm(r, tag, aps, "OK", delay=r["cdelay"])
             elif c == "failure":
                 confirm(r, tag, aps, "DELIVERY_FAILED", delay=r["cdelay"])
@@ -477,7 +482,7 @@ def run(scenario, params, tape, detail=False):
             for i in range(n):
                 kind = KINDS[(0, 0, 1, 2, 3, 4, 5, 1, 2)[tape.draw(9, "kind")]]
                 enq = ENQ_SCRIPTS[(0, 0, 0, 1, 2, 3, 4, 5)[tape.draw(8, "enq")]]
-                conf = CONFIRMS[(0, 0, 0, 1, 2, 3, 4, 5, 6, 7, 8, 9)[tape.draw(12, "conf")]]
+                conf = CONFIRMS[(0, 0, 0, 1, 2, 3, 4, 5, 6, 7, 8, 9, 10)[tape.draw(13, "conf")]]
                 cdelay = (0.001, 0.05, 0.6, 2.0, 30.0)[tape.draw(5, "cdelay")]
                 cancel_at = (None, None, None, None, 0.0, 0.002, 0.01, 0.7, 5.0, 119.0)[tape.draw(10, "cancel")]
                 r = new_request(app, i, kind, enq, conf, cdelay, cancel_at)
